@@ -230,14 +230,17 @@ LeavesSeq(ns, i) == IF i > Len(ns) THEN <<>> ELSE Leaves(ns[i]) \o LeavesSeq(ns,
 Leaves(n) == IF n.t = "leaf" THEN <<n>> ELSE LeavesSeq(n.kids, 1)
 InsertAt(s, p, w) == SubSeq(s, 1, p-1) \o w \o SubSeq(s, p, Len(s))
 
-\* C22 on the module (global skipping, no modifiers): extra whitespace before any token and at the end
-\* of an accepted input changes nothing but positions
+\* C22 on the module (global skipping, no modifiers): extra whitespace before any token that already has
+\* whitespace before it, at the start and at the end of an accepted input changes nothing but positions
 WsInsertion ==
   Family \in {"ops", "asg", "kinds"} =>
   \A i \in 1..Len(Inputs) :
     LET s == Inputs[i]  r == ParseAll(Env(Cfg, {}, s)) IN
     r.ok => LET ls == LeavesSeq(r.ns, 1) IN
-            /\ \A j \in 1..Len(ls) : Same(Out(InsertAt(s, ls[j].s, <<SP>>)), Out(s))
+            \* *extra* whitespace: where a token is already preceded by whitespace (or starts the input);
+            \* separating two glued tokens ('aa' -> 'a a') may legitimately re-tokenize the input
+            /\ \A j \in 1..Len(ls) :
+                  (ls[j].s = 1 \/ s[ls[j].s - 1] \in DefaultWs) => Same(Out(InsertAt(s, ls[j].s, <<SP>>)), Out(s))
             /\ Same(Out(s \o <<NL>>), Out(s))
             /\ Same(Out(<<TAB>> \o s), Out(s))
 
